@@ -26,7 +26,12 @@ __CPROVER_requires(node == NULL || (((node->hash != NULL) != (node->metaData != 
 __CPROVER_requires((g_occ.hash != NULL) != (g_occ.metaData != NULL) && g_occ.level <= 0xff)
 __CPROVER_requires(builder == NULL || (builder->ctx != NULL && builder->hsr != NULL))
 __CPROVER_requires(builder == NULL || __CPROVER_forall { int i; (0 <= i && i < KSI_TREE_BUILDER_STACK_LEN) ==> (i < at || TB_SLOT_OK(builder, i)) })
-__CPROVER_requires(g_w1 < g_w2 && g_w2 < KSI_TREE_BUILDER_STACK_LEN)
+__CPROVER_requires(g_w1 < g_w2 && g_w2 < KSI_TREE_BUILDER_STACK_LEN && g_live >= 0 && g_live < 100000)
+/* (0) live-allocation accounting (C19): a refused insertion keeps nothing it allocated; an accepted one keeps the
+ *     nodes made by the joins of the carry (none when the first slot was empty) */
+__CPROVER_ensures(IMPLIES(__CPROVER_return_value != KSI_OK, g_live == __CPROVER_old(g_live)))
+__CPROVER_ensures(IMPLIES(__CPROVER_return_value == KSI_OK, g_live >= __CPROVER_old(g_live) && g_live - __CPROVER_old(g_live) <= 256 &&
+		IMPLIES(__CPROVER_old(builder->stack[at]) == NULL, g_live == __CPROVER_old(g_live))))
 /* (1) accepted => arguments fine; refused => there is a reason */
 __CPROVER_ensures(IMPLIES(__CPROVER_return_value == KSI_OK, INS_ARGS_OK && node->level <= 0xff))
 __CPROVER_ensures(IMPLIES(__CPROVER_return_value != KSI_OK,
@@ -65,5 +70,5 @@ __CPROVER_ensures(IMPLIES(INS_OK && __CPROVER_old(builder->stack[at]) == NULL, n
 __CPROVER_assigns(builder != NULL: builder->stack;
 		node != NULL: node->parent;
 		g_occ.parent;
-		g_tr, g_tr_n, g_tr_failed, g_tr_result, g_tr_hsr, g_tr_hsr_mixed);
+		g_tr, g_tr_n, g_tr_failed, g_tr_result, g_tr_hsr, g_tr_hsr_mixed, g_live, g_alloc_failed);
 #endif
